@@ -178,6 +178,9 @@ def run(tier='quick'):
                         'inserts the new position into, on every path (also when the crate becomes a root)',
                   floor=1)
     old_position_removed(prog, cg, eff, chk, T7)
+    T12 = chk.rule('T12', 'set_parent refuses a parent handle whose crate has been removed (the parent of a live crate '
+                          'is absent or live)', floor=2)
+    parent_is_live(prog, cg, eff, chk, T12)
     T11 = chk.rule('T11', '2.x children() / root_crates() list the siblings by walking the successor chain: the triggers that '
                           'splice it on insert and delete exist in every supported 2.x DDL and equal their sibling copies '
                           '/ the reference dump; a multi-statement move runs under a transaction guard that begins, commits '
@@ -269,6 +272,77 @@ def subtree_removed(prog, cg, eff, chk, T10):
                               'below stay in crates() with a parent() that is no longer valid' % inst)
             else:
                 chk.ok(T10, inst + ' (child-deleting trigger with recursive triggers on)', dels[0].loc)
+
+
+def _call_names(t, out=None, seen=None, depth=0):
+    if out is None:
+        out, seen = set(), set()
+    if not isinstance(t, tuple) or id(t) in seen or depth > 30:
+        return out
+    seen.add(id(t))
+    if t and t[0] in ('call', 'callm') and isinstance(t[1], str):
+        out.add(t[1].split('::')[-1])
+    for x in t[1:]:
+        if isinstance(x, tuple):
+            _call_names(x, out, seen, depth + 1)
+            for y in x:
+                if isinstance(y, tuple):
+                    _call_names(y, out, seen, depth + 1)
+    return out
+
+
+def parent_is_live(prog, cg, eff, chk, T12):
+    """parent() of every live crate is absent or a live crate: set_parent must refuse a parent handle
+    whose crate has been removed.  Decided on the value flow of set_parent: before its first write it
+    reads the crate table keyed by the *argument's* id and a throw depends on that read."""
+    for qn in (V1 + 'engine_crate_impl::set_parent', V2 + 'crate_impl::set_parent'):
+        for f, ip, ret in evaluate(prog, cg, eff, qn):
+            chk.analysed(f)
+            first_write = min([w.seq for w in ip.writes] or [10 ** 9])
+            probes = []
+            for rd in ip.reads:
+                if rd.seq > first_write:
+                    continue
+                if not (set(_tables_of(rd)) & {'crate', 'list', 'playlist'}):
+                    continue
+                keyed = [c for c, v in (rd.where or {}).items()
+                         if c.lower() == 'id' and any(x[0] == 'in' for x in vf.leaves(v))]
+                if keyed:
+                    probes.append(rd)
+            guarded = False
+            for (seq, ty, node, fn, conds) in ip.throws:
+                if seq > first_write:
+                    continue
+                for c in conds:
+                    lv = list(vf.leaves(c))
+                    if any(x[0] == 'loc' and (x[1] or '').lower() in ('crate', 'list', 'playlist') for x in lv) and \
+                            any(x[0] == 'in' for x in lv):
+                        guarded = True
+                    # `parent->is_valid()`: a call on the argument of a method that is an existence test
+                    # of a crate row (whatever it is called): every definition of that name in the crate
+                    # impl classes counts / selects the crate table keyed by id
+                    if any(x[0] == 'in' for x in lv):
+                        for nm in _call_names(c):
+                            defs = [g for g in prog.functions.values() if g.body is not None and g.name == nm
+                                    and g.cls and g.cls.endswith('crate_impl')]
+                            if defs and all(any(st.stored_in is not None and st.stored_in.kind == 'select' and
+                                                (st.stored_in.table or '').lower() in ('crate', 'list', 'playlist') and
+                                                st.stored_in.where is not None and
+                                                re.search(r'\bid\s*=\s*\?', st.stored_in.where.text().lower())
+                                                for h in cg.reachable([g]).values() for st in eff.sites(h[0]))
+                                            for g in defs):
+                                guarded = True
+                                probes = probes or [rd for rd in ip.reads if rd.seq < seq]
+            inst = '%s: existence of the new parent tested before the first write' % _short(qn)
+            if probes and guarded:
+                chk.ok(T12, inst, probes[0].loc)
+            else:
+                chk.violation(T12, '%s|stale parent accepted' % _short(qn), locstr(f.node),
+                              '%s: not so (%s) - a handle to a crate that has been removed is accepted as the new '
+                              'parent: the moved crate stays in crates() with a parent() that is not a live crate '
+                              'and is in no children() / root_crates() listing' % (
+                                  inst, 'no read of the crate table keyed by the argument\'s id' if not probes
+                                  else 'no throw depends on that read'))
 
 
 def cycle_guard(prog, cg, eff, chk, T2, spec=None):
